@@ -1,0 +1,55 @@
+//! Verification hooks, only compiled with the `crux_verif` feature.
+//!
+//! `point` marks a place in the runtime where no lock is held and the OS could
+//! preempt the thread anyway. It does nothing unless a controller has been installed,
+//! in which case the controller is called with the name of the point (and may block
+//! the calling thread to force a particular interleaving).
+//!
+//! The remaining items are read-only snapshots of internal state, each taken under
+//! the lock the runtime itself uses.
+
+use std::sync::OnceLock;
+
+type Controller = Box<dyn Fn(&'static str) + Send + Sync>;
+
+static CONTROLLER: OnceLock<Controller> = OnceLock::new();
+
+/// Install the process-wide controller. Returns false if one was already installed.
+pub fn set_controller(controller: impl Fn(&'static str) + Send + Sync + 'static) -> bool {
+    CONTROLLER.set(Box::new(controller)).is_ok()
+}
+
+#[inline]
+pub fn point(name: &'static str) {
+    if let Some(controller) = CONTROLLER.get() {
+        controller(name);
+    }
+}
+
+/// Snapshot of a [`Command`](crate::Command)'s executor state
+#[derive(Debug, Clone, Copy, PartialEq, Eq, Default)]
+pub struct CommandStats {
+    pub live_tasks: usize,
+    pub ready_len: usize,
+    pub spawn_len: usize,
+    pub effects_len: usize,
+    pub events_len: usize,
+}
+
+/// Snapshot of a [`Core`](crate::Core)'s executor and channel state
+#[derive(Debug, Clone, Copy, PartialEq, Eq, Default)]
+pub struct ExecutorStats {
+    pub live_tasks: usize,
+    pub ready_len: usize,
+    pub spawn_len: usize,
+    pub requests_len: usize,
+    pub events_len: usize,
+}
+
+/// Kind of an entry in the bridge's resolve registry
+#[derive(Debug, Clone, Copy, PartialEq, Eq, Hash)]
+pub enum RegistryKind {
+    Never,
+    Once,
+    Many,
+}
